@@ -45,6 +45,7 @@ ASSUMPTIONS = [
 STUBS = I.STUBS
 OUTSIDE = ["histories longer than the bound", "grids with more than 2 cells (aliasing is shape independent)", "storages (C20)"]
 BOUNDS = {"max_paths": 30000, "tmax": 900.0, "query_timeout_ms": 10000, "max_int_fork": 32}
+CASE_TIMEOUT = 3600
 EXPLANATION = "exhaustive bounded histories with symbolic contents; per step term-level comparison of every handle against a heap model"
 
 
@@ -99,6 +100,7 @@ def _check(env, heap, objs, tag):
             ok = False
             bad = (a, b, real)
     env.prove(f"{tag}:shares_memory-relation-as-documented", ok)
+    env.prove(f"{tag}:data-of-every-field-is-writeable", all(bool(np.asarray(o.data).flags.writeable) for o in objs.values()))
     if not ok:
         env.note(f"sharing:{tag}", str(bad))
 
@@ -129,6 +131,8 @@ def _setup(env):
 
 
 OPS = ["write", "assign", "iadd", "add", "copy", "slice", "append", "view", "collect"]
+# further operations used as the *first* step of a history only (the following steps then act on their results too)
+FIRST_ONLY = ["real", "neg", "conjugate", "assign_field"]
 
 
 def scenario_history(env, cfg):
@@ -208,6 +212,22 @@ def scenario_history(env, cfg):
                 objs[newname] = res
             else:
                 continue
+        elif op in ("real", "neg", "conjugate"):
+            # unary operations return fresh fields (for real data numpy's own real/conjugate return views of the input)
+            res = obj.real if op == "real" else (-obj if op == "neg" else obj.conjugate())
+            heap.new(newname, heap.read(tgt) * (-1 if op == "neg" else 1))
+            objs[newname] = res
+        elif op == "assign_field":
+            # `field.data = other_field` copies the valid data only: ghost cells of the target stay as they are
+            other = obj.copy()
+            vals = env.array(f"o{k}", other._data_full.shape, -4, 4)
+            other._data_full[...] = vals
+            obj.data = other
+            src = other.data
+            for idx in np.ndindex(*heap.h[tgt].shape):
+                heap.cells[int(heap.h[tgt][idx])] = src[idx]
+            heap.new(newname, np.array(src, copy=True))
+            objs[newname] = other
         elif op == "collect":
             if isinstance(obj, pde.FieldCollection):
                 continue
@@ -300,9 +320,12 @@ def cases(tier, seed):
     q = tier == "quick"
     L = 3 if q else 4
     out = []
-    for first in OPS:
+    for first in OPS + [f for f in FIRST_ONLY if not (q and f == "neg")]:
         out.append({"name": f"history:first={first}:L={L}", "scenario": "scenario_history", "cfg": {"L": L, "prefix": [first]}, "validate_paths": 1})
     out.append({"name": f"history:no-collection:L={L}", "scenario": "scenario_history", "cfg": {"L": L, "collection_first": False}, "validate_paths": 1})
+    if not q:
+        for c_ in out:
+            c_["bounds"] = {"max_paths": 80000, "tmax": 3000.0, "path_timeout": 300.0}
     out.append({"name": "tensor", "scenario": "scenario_tensor", "cfg": {}})
     out.append({"name": "float-dtypes", "scenario": "scenario_float", "cfg": {}, "validate_paths": 0})
     return out
